@@ -172,6 +172,12 @@ def run_case(ck, desc):
     idxn = rng.choice(np.arange(1, n), size=desc["n_nan"], replace=False) if (desc["n_nan"] and desc["filter"]) else np.array([], dtype=int)
     p_obs[idxn] = np.nan
     prod = pd.DataFrame({"Days": days.astype(float), "Gas": gas_obs, "Pressure": p_obs, "Extra": 1.0})
+    if desc["seed"] % 3 == 1:
+        # two exports joined with pd.concat without ignore_index: the index labels repeat
+        half = n // 2
+        prod.index = np.concatenate([np.arange(half), np.arange(n - half)])
+    elif desc["seed"] % 3 == 2:
+        prod.index = np.arange(n)[::-1] + 100  # any other labelling of the rows
     snap = instrument.snapshot(prod)
     OBJ.clear()
     NODES.clear()
